@@ -7,6 +7,9 @@ BASELINE = json.load(open('/root/.vp/BASELINE.json'))['cmd']
 TECH_NOTE = "Common assumptions: go/ssa faithfulness, the engine's SMT encoding, solver soundness, mathematical integers (no overflow check), time as integer nanoseconds, assumed contracts of k8s/controller-runtime/logr/fmt functions (listed per run in evidence.coverage.trusted_base), goroutines not modelled."
 
 CLAIMED = {
+ "C01": ("Contract proofs of the per-sync planning: ManageDeployment and the canary role (manageCanaryStatus) put a node into PodsToCreate only if it is a key of the node map whose pod entry is nil, and never twice (distinctness proved through the duplicate-free enumeration of the map, for every iteration order); FilterAndMapPodsByNode is proved never to plan the deletion of a pod in phase Unknown nor of a pod on an ignored node (loop invariants over the pod list).",
+         "Not covered yet: that map keys are exactly the eligible nodes (CheckNodeFitness is an uninterpreted predicate here), duplicate resolution order (FilterPodsByNode is a trusted stub), and the create/delete goroutine fan-out (trusted skeleton, see C17). Cross-sync staleness is outside a per-call contract. " + TECH_NOTE,
+         "DESIGN.md 5 C01"),
  "C03": ("Contract proofs on the real code: CalculatePodToCreateAndDelete equals the budget formula for all integer inputs (exact functional postcondition), the budget lemma (available pods deleted <= max(0, maxUnavailable - U), total <= max(0, maxUnavailable)) is an SMT-checked lemma, and ManageDeployment is proved, for every node/pod map, every map iteration order and every API failure, to delete at most max(0, maxUnavailable) pods, only pods that exist, are not terminating and are outdated, and none on a canary node. Availability = readiness is a proved contract of IsPodAvailable.",
          "NOT decided by this check: the selection order inside the budget ('already-unavailable pods first'): the delete list is a prefix in map order and the clause needs a counting argument the engine cannot refute or prove; it is deliberately not asserted (DESIGN.md 6). compareCurrentPodWithNewPod is an uninterpreted deterministic predicate here (its internals are C10). " + TECH_NOTE,
          "DESIGN.md 5 C03"),
@@ -16,6 +19,9 @@ CLAIMED = {
  "C05": ("Contract proof on the real selectCurrentReplicaSet and the predicates it calls: the postcondition transcribed from the promotion rule (only-if direction, plus adoption when the active replica set is missing, failed/manual/paused never promoted by time) is discharged for all inputs by SMT from VCs generated over go/ssa of the working tree. This is the right level because the property is a statement about one call for every combination of strategy, timestamps, annotations and conditions.",
          "Assumes the ExtendedDaemonSet passed validation (manual mode has no duration) and ValidationMode is auto or manual (CRD enum). Not claimed: the data flow from the selector's result to status.activeReplicaSet inside updateInstanceWithCurrentRS, and the ordering of replica-set sync vs ExtendedDaemonSet reconcile (the contract quantifies over every state either order can produce). " + TECH_NOTE,
          "DESIGN.md 5 C05"),
+ "C06": ("Contract proof of manageCanaryPodFailures against the trigger table of the statement, with a loop invariant over the canary pods: Canary-Failed is sticky; it newly fires only with auto-fail enabled, at least one pod, and one of the three documented triggers, and it does fire on each of them; disabled auto-fail / auto-pause never fire; a manual unpause overrides pausing unless failed (the zero-pod case was a genuine defect, found by the check, replayed on the real function and fixed); manageCanaryStatus plans no creation while paused or failed.",
+         "HighestRestartCount / CannotStart / PendingCreate are deterministic uninterpreted extractors here (their loops are not yet under contract); the precise auto-pause trigger set (only-if direction for pausing) and the agreement of the written conditions with the flags are not yet discharged. Assumes pods with container statuses have status.startTime set. " + TECH_NOTE,
+         "DESIGN.md 5 C06"),
  "C07": ("Contract proofs of the rollback ingredients: manageStatus clears status.canary, sets state 'Canary Failed' and leaves activeReplicaSet untouched whenever the canary is failed; selectCurrentReplicaSet keeps the active replica set for a failed canary (C05 fix); shouldDeleteERS refuses deletion for two minutes after Canary-Failed and otherwise only for all-zero status; cleanupReplicaSet is proved over the ghost API call log to issue only Delete calls, only for listed replica sets that are neither current nor up-to-date and that shouldDeleteERS accepts, on every error path.",
          "Not covered yet: the status-then-spec write order inside updateInstanceWithCurrentRS and the eventual replacement of canary pods (liveness, see C02). " + TECH_NOTE,
          "DESIGN.md 5 C07"),
@@ -25,6 +31,9 @@ CLAIMED = {
  "C09": ("Contract proofs: calculateMaxCreation equals min(maxParallelPodCreation, (1 + t div interval) * increase) whenever the interval is positive and never exceeds maxParallelPodCreation; ManageDeployment's create list is bounded by that value and its delete list by maxUnavailable, for all inputs.",
          "Not covered yet: the spacing of two acting syncs by reconcileFrequency (replica-set Reconcile gate). Percent values are resolved by the assumed GetValueFromIntOrPercent contract (exact for integers, uninterpreted for percent strings). " + TECH_NOTE,
          "DESIGN.md 5 C09"),
+ "C12": ("Frame contracts over the ghost API call log: every List issued by getPodList, getOldDaemonsetPodList and ManageDeployment (canary-label clean-up) carries a namespace restriction equal to the ExtendedDaemonSet's / replica set's namespace, on every path; cleanupReplicaSet only deletes listed replica sets. The unscoped lists were a genuine defect (demonstrated on the real code, fixed in five places).",
+         "The two list sites in the ExtendedDaemonSet reconciler (replica-set list in Reconcile, pod list in selectNodes) are fixed in the code but not yet under contract; PodTemplate and create paths are not yet covered. Assumes List returns only objects matching its options. " + TECH_NOTE,
+         "DESIGN.md 5 C12"),
  "C14": ("Contract proofs of the status functions: manageStatus / manageCanaryStatusConditions / nonCanaryState compute desired, upToDate, state, reason and the Canary-Paused / Canary-Failed conditions as the documented function of their inputs (universally quantified postconditions); ManageDeployment and ManageUnknown are proved to report 0 <= available <= ready <= current (<= desired) and desired = number of targeted nodes, via loop invariants over the node map.",
          "Not covered yet: the sums over replica sets in the ExtendedDaemonSet Reconcile, the canary role's counters, and quiescence (a reachability notion). " + TECH_NOTE,
          "DESIGN.md 5 C14"),
